@@ -15,6 +15,9 @@ From MV Require Schema.Subtype.
 From MV Require Toc.UserView.
 From MV Require Rec.Crash.
 From MV Require Rec.Frozen.
+From MV Require IH5.Stub.
+From MV Require IH5.MergeRun.
+From MV Require IH5.Client.
 Import ListNotations.
 Local Open Scope string_scope.
 
@@ -34,5 +37,8 @@ Definition dispatch (x : sx) : sx :=
   | L [A "c08"; c] => Toc.UserView.run_c08 c
   | L [A "c11"; c] => Rec.Crash.run_c11 c
   | L [A "c02"; c] => Rec.Frozen.run_c02 c
+  | L [A "c10"; c] => IH5.Stub.run_c10 c
+  | L [A "c05"; c] => IH5.MergeRun.run_c05 c
+  | L [A "c09"; c] => IH5.Client.run_c09 c
   | _ => sx_bad "dispatch"
   end.
